@@ -125,3 +125,35 @@ Definition run_c12_phases (arg : sx) : sx :=
   let ops := sx_get_l (sx_nth arg 2) in
   let opss := map (ops_of_thread ops) (seq_from 0 nthreads) in
   SL (run_phases T (sx_get_l (sx_nth arg 3)) (map (fun _ => 0) (seq_from 0 nthreads)) (t_init opss)).
+
+(* ---- inner lock site (C12Inner.v): the table plus the re-entrant lock nodes and the handlers ----
+   arg: (table  (N reentrant-node ...)  ((N node  N kind  (N callee ...)) ...)  nthreads  (op ...))
+        ->  (N wf  N ror_all  ((N outcome (N locked ...) (N entered ...)) ...))      as run_c12 *)
+From YV Require Import C12.C12Inner.
+
+Definition itable_of (rows reent catch : sx) : itable :=
+  ITable (table_of rows) (map nat_of (sx_get_l reent))
+         (map (fun e => (nat_of (sx_nth e 0), nat_of (sx_nth e 1), map nat_of (sx_get_l (sx_nth e 2))))
+              (sx_get_l catch)).
+
+Definition ilock_row (T : itable) (c : iconfig nat (list nat)) : sx :=
+  SL (map (fun x => sx_bool (match ilocks c x with Some _ => true | None => false end))
+          (seq_from 0 (length (it_rows T)))).
+
+Fixpoint irun_ops (T : itable) (ops : list sx) (c : iconfig nat (list nat)) : list sx :=
+  match ops with
+  | [] => []
+  | o :: rest =>
+    let t := op_thread o in
+    let nres := match nth_error (ithr c) t with Some th => length (iresults th) | None => 0 end in
+    let '(c', out) := idrive T 4000 t (op_fail o) 0 nres c in
+    SL [sx_nat out; ilock_row T c'; SL (map sx_nat (skipn_nat (length (ish c)) (ish c')))]
+       :: irun_ops T rest c'
+  end.
+
+Definition run_c12i (arg : sx) : sx :=
+  let T := itable_of (sx_nth arg 0) (sx_nth arg 1) (sx_nth arg 2) in
+  let nthreads := nat_of (sx_nth arg 3) in
+  let ops := sx_get_l (sx_nth arg 4) in
+  let opss := map (ops_of_thread ops) (seq_from 0 nthreads) in
+  SL [sx_bool (itable_wf T); sx_bool (table_ror_all (it_rows T)); SL (irun_ops T ops (it_init opss))].
